@@ -186,22 +186,39 @@ def frame_obligations(I, c, st, entry_env):
             continue
         cond = [l >= 0, l < st.A0] + [l != x for x in (al or [])]
         goals.append((name, z3.Implies(z3.And(cond), z3.Select(arr, l) == z3.Select(before, l))))
-    for name, g in goals:
-        I.oblige(st, f"frame:{name}", g, kind="frame")
+    if goals:
+        # one obligation per path: nothing outside `modifies` changed (fields listed in the name of a failure's model)
+        I.oblige(st, "frame", z3.And([g for _, g in goals]), kind="frame", clause="unchanged outside modifies: " + ", ".join(n for n, _ in goals))
 
 
 # ------------------------------------------------------------------------------ discharge
-def discharge(ob: Oblig, timeout_ms=10000, seed=0, use_cvc5=True):
-    """Returns dict(verdict= 'unsat'|'sat'|'unknown', backend, time_s, model?)"""
-    t0 = time.time()
+def _check(pc, goal, timeout_ms, seed):
     s = z3.Solver()
     s.set("timeout", timeout_ms)
     if seed:
         s.set("random_seed", seed)
-    s.add(*ob.pc)
-    s.add(z3.Not(ob.goal))
-    r = s.check()
-    out = {"backend": "z3", "time_s": round(time.time() - t0, 4)}
+    s.add(*pc)
+    s.add(z3.Not(goal))
+    return s, s.check()
+
+
+def discharge(ob: Oblig, timeout_ms=10000, seed=0, use_cvc5=True):
+    """Returns dict(verdict= 'unsat'|'sat'|'unknown', backend, time_s, model?).
+    Stage 1 proves from the quantifier-free hypotheses only (fewer hypotheses: still a proof); stage 2
+    adds the quantified facts (sequence concatenation, comprehension definitions) when stage 1 found a
+    candidate counter-model."""
+    t0 = time.time()
+    qf = [c for c in ob.pc if not z3.is_quantifier(c)]
+    quant = len(qf) != len(ob.pc)
+    s, r = _check(qf, ob.goal, timeout_ms, seed)
+    out = {"backend": "z3", "stage": 1}
+    if r == z3.sat and quant:
+        cand = extract_model(s.model(), ob)
+        s, r = _check(ob.pc, ob.goal, timeout_ms, seed)
+        out["stage"] = 2
+        if r == z3.unknown:
+            out["candidate_model"] = cand
+    out["time_s"] = round(time.time() - t0, 4)
     if r == z3.unsat:
         out["verdict"] = "unsat"
         return out
@@ -267,7 +284,7 @@ def extract_model(m, ob):
     ex = ob.extra or {}
     heap0 = ex.get("heap0") or {}
     def deep(v, depth=0):
-        if isinstance(v, dict) and "ref" in v and v["ref"] >= 0 and depth < 3:
+        if isinstance(v, dict) and "ref" in v and v["ref"] >= 0 and depth < 1:
             fields = {}
             for f, arr in heap0.items():
                 try:
